@@ -86,3 +86,25 @@ Definition rk_ok (k : rowkind) : Prop :=
   | RowUni D => 0 <= D
   | RowFric D Rr fl => D * Rr = 1 /\ 0 < Rr /\ 0 <= fl
   end.
+
+(* ---- the row loop of mj_constraintUpdate_impl (constraint_update of Model/ConstraintUpdate.v) as cost and
+   force functions of a residual vector: m = number of rows, the residual list is (x 0, ..., x (m-1)) *)
+Definition cu_cost_fn (ne nf : Z) (con : list (@contact R)) (rows : list (@rowdesc R)) : vec -> R :=
+  fun x => match constraint_update false ne nf con rows (map x (seq 0 (length rows))) with
+           | Some (c, _, _, _) => c | None => 0 end.
+Definition cu_force_fn (ne nf : Z) (con : list (@contact R)) (rows : list (@rowdesc R)) : vec -> vec :=
+  fun x r => match constraint_update false ne nf con rows (map x (seq 0 (length rows))) with
+             | Some (_, f, _, _) => nth r f 0 | None => 0 end.
+
+(* kind of the row at index i (mj_constraintUpdate_impl: i < ne equality, i < ne+nf friction loss, else by type) *)
+Definition kind_at (ne nf : Z) (i : Z) (row : @rowdesc R) : rowkind :=
+  match row with (D, Rr, fl, tp, id) =>
+    if (i <? ne)%Z then RowEq D else if (i <? ne + nf)%Z then RowFric D Rr fl else RowUni D end.
+Definition row_not_elliptic (row : @rowdesc R) : Prop :=
+  match row with (D, Rr, fl, tp, id) => (tp =? CT_ELLIPTIC)%Z = false end.
+(* every row satisfies the relations mj_makeImpedance establishes (rk_ok of its kind) and none is elliptic *)
+Fixpoint scalar_rows_ok (ne nf : Z) (i : Z) (rows : list (@rowdesc R)) : Prop :=
+  match rows with
+  | [] => True
+  | row :: rows' => row_not_elliptic row /\ rk_ok (kind_at ne nf i row) /\ scalar_rows_ok ne nf (i + 1)%Z rows'
+  end.
